@@ -55,6 +55,8 @@ pub enum Pred {
     ValueParity,
     /// true iff key % m == r
     KeyMod(u8, u8),
+    /// true iff key < n (the keys steering adds lie above the universe)
+    KeyBelow(u32),
 }
 
 #[derive(Clone, Copy, Debug, PartialEq, Eq, Serialize, Deserialize)]
